@@ -1,0 +1,15 @@
+// Copyright 2026 The Go Authors. All rights reserved.
+// Use of this source code is governed by a BSD-style
+// license that can be found in the LICENSE file.
+
+//go:build !verif && (!goexperiment.jsonv2 || !go1.25)
+
+package jsontext
+
+// Verification hooks (see verif_hooks.go); without the "verif" build tag
+// they are empty and inlined away.
+
+func verifPoolGetEncoder(kind string, e *Encoder) {}
+func verifPoolPutEncoder(kind string, e *Encoder) {}
+func verifPoolGetDecoder(kind string, d *Decoder) {}
+func verifPoolPutDecoder(kind string, d *Decoder) {}
